@@ -115,6 +115,7 @@ pub fn generate(stream: &str, n: usize, seed: u64, out: &mut dyn Write) {
         "stream" => gen_stream(&mut r, n, out),
         "seipayload" => gen_seipayload(&mut r, n, out),
         "enums" => gen_enums(n, out),
+        s if s.starts_with("tables-") => gen_tables(&s[7..], out),
         "spshdr" => for _ in 0..n { gen_spshdr(&mut r, out); },
         // one escape (or one forbidden sequence) at every offset of a long, otherwise zero-free NAL read from one contiguous chunk:
         // whatever internal grid a reader uses (windows, blocks, look-ahead), some offset straddles it
@@ -1066,6 +1067,12 @@ fn gen_spshdr(r: &mut Rng, out: &mut dyn Write) {
     if [100u8, 110, 122, 244, 44, 83, 86].contains(&prof) { w.ue(1).ue(0).ue(0).b(false).b(false); }
     w.ue(0).ue(2).ue(1).b(false).ue(r.below(20)).ue(r.below(20)).b(true).b(false).b(false).b(false);
     writeln!(out, "derived {}", hex(&w.trail())).unwrap();
+}
+
+/// the private tables swept through the parsers, as case lines (exhaustive): `tbl <name> <i>`
+fn gen_tables(which: &str, out: &mut dyn Write) {
+    let all: [(&str, u64, &str); 7] = [("chroma", 256, "C04"), ("aspect", 256, "C04"), ("vfmt", 8, "C04"), ("cfmt", 16, "C04"), ("slicetype", 64, "C06"), ("seitype", 512, "C10"), ("picstruct", 16, "C11")];
+    for (name, n, p) in all { if which == "all" || which == p { for i in 0..n { writeln!(out, "tbl {} {}", name, i).unwrap(); } } }
 }
 
 fn gen_enums(n: usize, out: &mut dyn Write) {
